@@ -98,7 +98,7 @@ def gen(r):
         # exact rationals whose reciprocal is an integer that binary floating point misses (1/93 -> 92.99999...)
         thr = r.choice([['frac', 1, q] for q in (93, 99, 105, 117, 49, 98, 103, 107, 3, 7, 10)] + [['dec', '0.01'], ['dec', '0.1']])
     w = int(1 / dec_thr(thr))
-    style = r.choice(['uniform', 'zipf', 'distinct', 'adversarial', 'adversarial', 'mixed'])
+    style = r.choice(['uniform', 'zipf', 'distinct', 'adversarial', 'adversarial', 'mixed', 'quiet-window'])
     n = r.choice([0, 1, w - 1, w, w + 1, 3 * w, 10 * w + 3, 40 * w, r.randint(0, 800)])
     n = min(n, 4000)
     if style == 'uniform':
@@ -112,6 +112,14 @@ def gen(r):
         stream = adversarial(w, r.choice([2, 3, 5, 8, 10, 12]))[:4000]
         if r.random() < 0.4:
             stream = stream + [r.randrange(5) for _ in range(r.randint(0, 3 * w))]
+    elif style == 'quiet-window':
+        # windows that fill the table with keys which only just survive, then one or two whole windows in which
+        # nothing but an already tracked key arrives (every addition a hit), then a burst of new keys
+        nb = r.choice([2, 3, 4, 6])
+        base = adversarial(w, r.choice([3, 5, 8]))[:nb * w]
+        hot = base[0] if base else 0
+        stream = base + [hot] * (w * r.choice([1, 1, 2])) + ['fresh-%d' % i for i in range(r.choice([w - 1, w, 2 * w - 1]))]
+        stream = stream[:6000]
     else:
         stream = [r.choice([0, 0, 0, 1, 1, 2]) if r.random() < 0.5 else r.randrange(1000) for _ in range(n)]
     stream = [x if isinstance(x, str) else ('s%d' % x if r.random() < 0.0 else x) for x in stream]
@@ -119,7 +127,8 @@ def gen(r):
     feed = []
     i = 0
     while i < len(stream):
-        how = r.choices(['add', 'update-iter', 'update-list', 'update-map', 'update-kw', 'update-fails'], [50, 10, 10, 12, 6, 2])[0]
+        how = r.choices(['add', 'update-iter', 'update-list', 'update-map', 'update-kw', 'update-fails'],
+                        [50, 10, 10, 12, 6, 2] if style != 'quiet-window' else [80, 10, 10, 0, 0, 0])[0]
         if how == 'update-fails':
             m = r.randint(0, 6)
             j = r.randint(0, m)
